@@ -639,3 +639,37 @@ def discarded_lazy_calls(ctx, within=None):
                 if nm in gens and nm not in plain:
                     out.append((f, n.value, gens[nm][0].qualname))
     return out
+
+
+def ctor_prefix_clause(ctx, res, prop, cid, root_name, floor=1):
+    """a constructor that replaces an inherited one accepts the same positional arguments in the same places: its parameter list starts
+    with the parameters of the constructor it overrides (new options are appended). Callers written against the base - positional
+    arguments included - otherwise bind a value to the wrong option without any error"""
+    from ..report import Finding
+    repo = ctx.repo
+    root = repo.cls(root_name)
+    c = res.clause(cid, 'R-SIBLING', 'constructors in the %s hierarchy keep the positional parameters of the constructor they override' % root_name, floor=floor)
+    for k in [root] + repo.subclasses(root_name):
+        own = k.methods.get('__init__')
+        if own is None:
+            c.instance('%s inherits its constructor' % k.name, k.name, True)
+            continue
+        base = None
+        for b in k.mro()[1:]:
+            if '__init__' in b.methods:
+                base = b.methods['__init__']
+                break
+        if base is None:
+            c.instance('%s.__init__%s (root)' % (k.name, tuple(own.params[1:])), own.qualname, True)
+            continue
+        bp, op = base.params[1:], own.params[1:]
+        ok = op[:len(bp)] == bp
+        c.instance('%s.__init__ starts with the parameters of %s' % (k.name, base.qualname), own.qualname, ok)
+        c.evaluations += 1
+        if not ok:
+            res.add(Finding(prop, cid, 'R-SIBLING', own.file, own.qualname, own.node.lineno, '__init__(%s)' % ', '.join(op),
+                            '%s.__init__(%s) does not start with the parameters of the constructor it overrides (%s): a positional argument written '
+                            'for `%s` now lands in `%s`, and the option it was meant for silently keeps its default' % (
+                                k.name, ', '.join(op), ', '.join(bp), next((b_ for b_, o_ in zip(bp, op) if b_ != o_), bp[-1] if bp else '?'),
+                                next((o_ for b_, o_ in zip(bp, op) if b_ != o_), '?'))))
+    return c
